@@ -9,7 +9,7 @@ RULE = ("the C01 generator with the magnitude-stress layer (very small 1e-7..1e-
 ANCHORS = ["XMLFileWriter.write_to_file", "float_to_str", "RectangleXMLNode.create_rectangle_node",
            "CircleXMLNode.create_circle_node", "LocationXMLNode.create_node", "GeoTransformationXMLNode.create_node",
            "LaneletXMLNode.create_node", "TrafficLightXMLNode.create_node", "IntersectionXMLNode.create_node"]
-REQUIRED = ["retry-after-failed-write", "environment.time-24:00", "contract.xsd", "contract.xml.write_to_file", "role.static", "role.dynamic", "role.phantom",
+REQUIRED = ["goal.orientation.almost-full-circle", "retry-after-failed-write", "environment.time-24:00", "contract.xsd", "contract.xml.write_to_file", "role.static", "role.dynamic", "role.phantom",
             "role.environment", "shape.rectangle", "shape.circle", "shape.group", "intersection", "stopline.refs",
             "goal.position.group", "goal.position.lanelets", "light.offset.positive", "lanelet.3d.zero-height-vertex"] + \
            ["precision.%d" % d for d in range(1, 13)]
